@@ -8,7 +8,7 @@ import psdec
 from pkgspec import SpecDB, mk
 
 RULE = ("databases produced by an independent encoder (tools/msienc.py, written from the format description): two- and "
-        "three-byte string references, unused / duplicate / over-counted pool entries, a > 64 KiB string (long-string escape), "
+        "three-byte string references, unused (empty, or still carrying stale text) / duplicate / over-counted pool entries, a > 64 KiB string (long-string escape), "
         "code pages UTF-8 / US-ASCII (also on the model) and 1252 / 932 / 1251 / 28592 (implementation only), catalog rows in "
         "any order, integer field sizes 1/2/4, with and without _Validation, summary property sets in three layouts (plain, "
         "shuffled table vs value order, gaps between values) with I1/I2/I4/LPSTR/FILETIME/EMPTY/NULL values, binary streams; "
@@ -69,7 +69,7 @@ def gen_db(rng, j):
     if page != 65001:
         summary.insert(0, (1, 2, page - 0x10000 if page >= 0x8000 else page))
     streams = {"Bin.dat": [rng.randint(0, 255) for _ in range(rng.choice([0, 5, 300]))]} if rng.random() < 0.6 else {}
-    opts = dict(long_refs=(j % 3 == 1), holes=rng.choice([0, 0.2]), dups=rng.choice([0, 0.3]), overcount=rng.choice([0, 0.3]),
+    opts = dict(long_refs=(j % 3 == 1), holes=rng.choice([0, 0.2]), dups=rng.choice([0, 0.3]), overcount=rng.choice([0, 0.3]), stale=rng.choice([0, 0.25]),
                 validation=(j % 5 != 2), shuffle_catalog=(j % 4 == 3), odd_int_sizes=(j % 6 == 4),
                 layout=["plain", "shuffled", "gaps"][j % 3])
     return cp, page, tables, summary, streams, opts
